@@ -12,7 +12,7 @@
 EXTENDS Integers, Sequences, TLC, Json, IOUtils
 
 Trace == ndJsonDeserialize(IOEnv.VERIF_TRACE)
-MaxVerdicts == 50
+VL == INSTANCE VerdictLib
 
 VARIABLES l, tid, q, verdicts
 tvars == <<l, tid, q, verdicts>>
@@ -29,8 +29,8 @@ ToRet(r) == CASE r.kind = "nil"  -> Q!Nil
               [] r.kind = "one"  -> Q!One([id |-> r.v[1], p |-> r.v[2]])
               [] r.kind = "many" -> Q!Many(ToQ(r.v))
 
-Verdict(clause, detail) == [prop |-> "C17", clause |-> clause, tid |-> tid, idx |-> l, detail |-> detail]
-AddV(vs) == IF Len(verdicts) >= MaxVerdicts THEN verdicts ELSE verdicts \o vs
+Verdict(clause, detail) == [prop |-> "C17", clause |-> clause, sig |-> detail.op, tid |-> tid, idx |-> l, detail |-> detail]
+AddV(vs) == VL!AddVTo(verdicts, vs)
 
 Ev(n) == l <= Len(Trace) /\ Trace[l].ev = n
 
